@@ -359,21 +359,22 @@ theorem dueN_eq (F : Flow S) (ρ₁ ρ₂ : Rank F.n) (g₁ g₂ : G) (t : Time)
   · simp [hi]
 
 /-- **after a cycle every node still sees the same slot under both ranks, and holds the same state** -/
-theorem cycle_view_independent (F : Flow S) (ρ₁ ρ₂ : Rank F.n) (hT₁ : Topo F ρ₁) (hT₂ : Topo F ρ₂) (hS : SelfFuture F)
+theorem cycle_view_independent (F : Flow S) (ρ₁ ρ₂ : Rank F.n) (hT₁ : Topo F ρ₁) (hT₂ : Topo F ρ₂)
+    (hR₁ : TopoR F ρ₁) (hR₂ : TopoR F ρ₂) (hS : SelfFuture F)
     (hF : Frame F) (fx : Bool) (t : Time) (g₁ g₂ : G) (σ0 : Nat → S)
     (hlen₁ : g₁.slots.length = F.n) (hlen₂ : g₂.slots.length = F.n) (hc₁ : g₁.cursor = 0) (hc₂ : g₂.cursor = 0)
     (hV : SameView F ρ₁ ρ₂ g₁ g₂) :
     SameView F ρ₁ ρ₂ (cycle fx (beh F ρ₁) F.n t g₁ σ0).g (cycle fx (beh F ρ₂) F.n t g₂ σ0).g ∧
     (cycle fx (beh F ρ₁) F.n t g₁ σ0).st = (cycle fx (beh F ρ₂) F.n t g₂ σ0).st := by
   have hdue := dueN_eq F ρ₁ ρ₂ g₁ g₂ t hV
-  have s1 := denSeq_sol F ρ₁ hT₁ hF t σ0 (dueN F ρ₁ g₁ t)
-  have s2 := denSeq_sol F ρ₂ hT₂ hF t σ0 (dueN F ρ₂ g₂ t)
+  have s1 := denSeq_sol F ρ₁ hT₁ hR₁ hF t σ0 (dueN F ρ₁ g₁ t)
+  have s2 := denSeq_sol F ρ₂ hT₂ hR₂ hF t σ0 (dueN F ρ₂ g₂ t)
   rw [← hdue] at s2
-  have hu := sol_unique F ρ₁ hT₁ hF t σ0 (dueN F ρ₁ g₁ t) _ _ _ _ s1 s2
+  have hu := sol_unique F ρ₁ hT₁ hR₁ hF t σ0 (dueN F ρ₁ g₁ t) _ _ _ _ s1 s2
   have hfires : ∀ i, i < F.n →
       (fires F (dueN F ρ₁ g₁ t) (denSeq F ρ₁ t (dueN F ρ₁ g₁ t) F.n 0 σ0 [] []).2.1 i ↔
        fires F (dueN F ρ₁ g₁ t) (denSeq F ρ₂ t (dueN F ρ₁ g₁ t) F.n 0 σ0 [] []).2.1 i) :=
-    fired_rank_independent F ρ₁ ρ₂ hT₁ hT₂ hF t (dueN F ρ₁ g₁ t) σ0
+    fired_rank_independent F ρ₁ ρ₂ hT₁ hT₂ hR₁ hR₂ hF t (dueN F ρ₁ g₁ t) σ0
   refine ⟨?_, ?_⟩
   · intro i hi
     obtain ⟨a1, b1⟩ := cycle_slots F ρ₁ hT₁ hS fx t g₁ σ0 hlen₁ hc₁ i hi
@@ -430,13 +431,14 @@ theorem cycle_ok (F : Flow S) (ρ : Rank F.n) (hT : Topo F ρ) (hS : SelfFuture 
   (cycle_eq_denSeq F ρ hT hS fx t g σ0 hlen hc).2.2
 
 /-- one cycle keeps the relation and ends with equal states -/
-theorem cycle_rel (F : Flow S) (ρ₁ ρ₂ : Rank F.n) (hT₁ : Topo F ρ₁) (hT₂ : Topo F ρ₂) (hS : SelfFuture F)
+theorem cycle_rel (F : Flow S) (ρ₁ ρ₂ : Rank F.n) (hT₁ : Topo F ρ₁) (hT₂ : Topo F ρ₂)
+    (hR₁ : TopoR F ρ₁) (hR₂ : TopoR F ρ₂) (hS : SelfFuture F)
     (hF : Frame F) (fx : Bool) (t : Time) (g₁ g₂ : G) (σ0 : Nat → S) (hR : Rel F ρ₁ ρ₂ g₁ g₂) :
     Rel F ρ₁ ρ₂ (cycle fx (beh F ρ₁) F.n t g₁ σ0).g (cycle fx (beh F ρ₂) F.n t g₂ σ0).g ∧
     (cycle fx (beh F ρ₁) F.n t g₁ σ0).st = (cycle fx (beh F ρ₂) F.n t g₂ σ0).st := by
   have hok₁ := cycle_ok F ρ₁ hT₁ hS fx t g₁ σ0 hR.len₁ hR.cur₁
   have hok₂ := cycle_ok F ρ₂ hT₂ hS fx t g₂ σ0 hR.len₂ hR.cur₂
-  obtain ⟨hV, hst⟩ := cycle_view_independent F ρ₁ ρ₂ hT₁ hT₂ hS hF fx t g₁ g₂ σ0 hR.len₁ hR.len₂ hR.cur₁ hR.cur₂ hR.view
+  obtain ⟨hV, hst⟩ := cycle_view_independent F ρ₁ ρ₂ hT₁ hT₂ hR₁ hR₂ hS hF fx t g₁ g₂ σ0 hR.len₁ hR.len₂ hR.cur₁ hR.cur₂ hR.view
   have hfresh : ∀ (ρ : Rank F.n) (g : G), g.cursor = 0 → cycle fx (beh F ρ) F.n t g σ0 =
       scanFrom (beh F ρ) t F.n 0 { g with now := t, failed := false, next := none, cursor := 0 } σ0 [] := by
     intro ρ g hc; cases fx <;> simp [cycle, resuming, hc]
@@ -459,7 +461,8 @@ theorem cycle_rel (F : Flow S) (ρ₁ ρ₂ : Rank F.n) (hT₁ : Topo F ρ₁) (
     Then the runs have the same cycle times, end with the same state of every node, and both complete.
     Node functions are arbitrary (they read only their producers and themselves and schedule themselves only in
     the future). -/
-theorem run_rank_independent (F : Flow S) (ρ₁ ρ₂ : Rank F.n) (hT₁ : Topo F ρ₁) (hT₂ : Topo F ρ₂) (hS : SelfFuture F)
+theorem run_rank_independent (F : Flow S) (ρ₁ ρ₂ : Rank F.n) (hT₁ : Topo F ρ₁) (hT₂ : Topo F ρ₂)
+    (hR₁ : TopoR F ρ₁) (hR₂ : TopoR F ρ₂) (hS : SelfFuture F)
     (hF : Frame F) (fx : Bool) (endT : Time) (fuel : Nat) (g₁ g₂ : G) (σ0 : Nat → S) (ts : List Time)
     (hR : Rel F ρ₁ ρ₂ g₁ g₂) :
     (simLoop fx (beh F ρ₁) F.n endT fuel g₁ σ0 ts).times = (simLoop fx (beh F ρ₂) F.n endT fuel g₂ σ0 ts).times ∧
@@ -474,7 +477,7 @@ theorem run_rank_independent (F : Flow S) (ρ₁ ρ₂ : Rank F.n) (hT₁ : Topo
     | none => exact ⟨rfl, rfl, rfl⟩
     | some t =>
       simp only
-      obtain ⟨hR', hst⟩ := cycle_rel F ρ₁ ρ₂ hT₁ hT₂ hS hF fx t g₁ g₂ σ0 hR
+      obtain ⟨hR', hst⟩ := cycle_rel F ρ₁ ρ₂ hT₁ hT₂ hR₁ hR₂ hS hF fx t g₁ g₂ σ0 hR
       rw [cycle_ok F ρ₁ hT₁ hS fx t g₁ σ0 hR.len₁ hR.cur₁, cycle_ok F ρ₂ hT₂ hS fx t g₂ σ0 hR.len₂ hR.cur₂]
       simp only [↓reduceIte]
       rw [hst]
@@ -485,12 +488,16 @@ theorem run_rank_independent (F : Flow S) (ρ₁ ρ₂ : Rank F.n) (hT₁ : Topo
 def exG : Flow Nat :=
   { n := 4,
     prods := fun i => if i = 1 ∨ i = 2 then [0] else if i = 3 then [1, 2] else [],
+    -- node 3 also reads node 0, passively
+    reads := fun i => if i = 1 ∨ i = 2 then [0] else if i = 3 then [1, 2, 0] else [],
     f := fun i σ _ => if i = 0 then (σ 0 + 1, true) else if i = 1 ∨ i = 2 then (σ 0 * (i + 1), true)
-                      else if i = 3 then (σ 1 + σ 2, true) else (σ i, false),
+                      else if i = 3 then (σ 1 + σ 2 + σ 0, true) else (σ i, false),
     selfReq := fun i _ t => if i = 0 then [t + 2] else [] }
 
 example : Topo exG exR1 := by unfold Topo; decide
 example : Topo exG exR2 := by unfold Topo; decide
+example : TopoR exG exR1 := by unfold TopoR; decide
+example : TopoR exG exR2 := by unfold TopoR; decide
 example : SelfFuture exG := by
   intro i s t T h
   simp only [exG] at h
@@ -506,8 +513,8 @@ example : Frame exG := by
       simp [h0, h12, this]
     · by_cases h3 : i = 3
       · subst h3
-        have a := h 1 (Or.inr (by simp)); have b := h 2 (Or.inr (by simp))
-        simp [a, b]
+        have a := h 1 (Or.inr (by simp)); have b := h 2 (Or.inr (by simp)); have c := h 0 (Or.inr (by simp))
+        simp [a, b, c]
       · simp [h0, h12, h3, h i (Or.inl rfl)]
 example : Rel exG exR1 exR2 { slots := [5, 0, 0, 0], next := some 5 } { slots := [5, 0, 0, 0], next := some 5 } :=
   ⟨rfl, rfl, rfl, rfl, by unfold SameView; decide, rfl⟩
